@@ -14,6 +14,9 @@ inductive Tok
   | delegP (amt : Nat)         -- G:amt   staking.delegate of the contract's own coins
   | undelegE (amt : Nat)       -- U:amt   staking.undelegate of the origin's stake
   | claimP                     -- W / C   the contract collects its staking rewards
+  | touchModule                -- Z / z   a call (with or without value) to a module account: a module account cannot be
+                               --         paid from the EVM, so a transaction that attaches value fails as a whole; in the
+                               --         reading of a transaction that goes through, the call has moved nothing
   | frame (reverts : Bool) (body : List Tok)
 
 structure Ref where
@@ -48,6 +51,7 @@ mutual
     | .delegP amt => ({ r with dP := r.dP - amt, bondP := r.bondP + amt } : Ref).payP
     | .undelegE amt => ({ r with bondE := r.bondE - amt, unbond := r.unbond + amt } : Ref).payE
     | .claimP => r.payP
+    | .touchModule => r
     | .frame reverts body => if reverts then r else evalToks r body
   def evalToks (r : Ref) : List Tok → Ref
     | [] => r
